@@ -276,6 +276,9 @@ def run(ctx):
         dmg = S.make_damaged_cases(ctx, pool, ctx.n(40, 900))
         dmg += dnp_span_cases(pool)
         S.run_stream_cases(ctx, dmg, kind='C12-stream', enforce_expect=True, classify=classify_completed_stop)
+    # end to end: damaged streams through the extracted scanner over the concrete framing decoder (StreamFrame.v)
+    from props import c11_e2e
+    c11_e2e.run(ctx, damaged=True)
     cli_sample(ctx, pool)
     ctx.partial = []
     ctx.assumptions = ['Stream.v is instantiated with per-offset observations of the real decoder (C11)',
